@@ -203,3 +203,39 @@ def _c12_jobs(tier, seed):
 
 
 GENERATORS.append(_c12_jobs)
+
+
+# =========================================================================== IAuth core / xquery (C01-C06, C10)
+IAUTH_SRCS = ["src/set.c", "src/bitset.c", "src/common.c", "modules/iauth_misc.c", "src/accumulators.c"]
+IAUTH_STUBS = ["stubs/env_iauth.c", NET, "stubs/printf_model.c"]
+TRAMP = ["stubs/tramp_iauth.c"]
+IAUTH_UNWIND = ["--unwind", "4", "--unwinding-assertions", "--object-bits", "10", "--no-malloc-may-fail"]
+
+
+def IJ(id, prop, entry, remove, harness="harness/h_iauth_core.c", extra_props=(), **kw):
+    """job on the IAuth unit: real function under proof, callees in `remove` replaced by their
+    executable contracts (spec/iauth_model.h)"""
+    d = dict(id=id, prop=prop, cls="proof", srcs=IAUTH_SRCS, stubs=IAUTH_STUBS, harness=harness, entry=entry,
+             remove_bodies=list(remove), late_stubs=TRAMP, replaced_models=list(remove),
+             checks=["ptr", "ovf", "shift"], cbmc=IAUTH_UNWIND + kw.pop("cbmc", []), timeout=900, cost=2)
+    d.update(kw)
+    d["replace_doc"] = list(remove)
+    J(**d)
+    for p2 in extra_props:          # the same obligation group also supports another property
+        d2 = dict(d); d2["id"] = id.replace(prop + ".", p2 + ".", 1); d2["prop"] = p2
+        J(**d2)
+
+
+PROPS["C01"] = dict(level="proof", explanation="per-function contracts over the ghost log; histories by induction over INV (DESIGN section 4)")
+PROPS["C02"] = dict(level="proof", explanation="the single acceptance gate is proved equal to the property's condition; hold counters by INV preservation")
+PROPS["C03"] = dict(level="proof", explanation="every state-changing step re-establishes 'nothing decidable is left waiting'")
+
+GATE_CALLEES = ["iauth_accept", "iauth_soft_done"]
+IJ("C02.check_request", "C02", "h_check_request", GATE_CALLEES, functions=["iauth_check_request"], extra_props=("C01", "C03"))
+IJ("C01.accept", "C01", "h_accept", ["iauth_send", "notify_pre_registered", "parse_registered"], functions=["iauth_accept"],
+   cbmc=["--unwindset", "iauth_send.0:12"])
+IJ("C01.kill", "C01", "h_kill", ["iauth_send", "parse_registered"], functions=["iauth_kill"], cbmc=["--unwindset", "iauth_send.0:12"])
+IJ("C01.quietly_kill", "C01", "h_kill", ["iauth_send", "parse_registered"], functions=["iauth_quietly_kill"], defines=["QUIET"],
+   cbmc=["--unwindset", "iauth_send.0:12"])
+IJ("C01.soft_done", "C01", "h_soft_done", ["iauth_send"], functions=["iauth_soft_done"], cbmc=["--unwindset", "iauth_send.0:12"])
+IJ("C03.timeout", "C03", "h_timeout", ["iauth_check_request"], functions=["iauth_timeout"], extra_props=("C02",))
